@@ -370,12 +370,14 @@ impl World {
                 // wait until the registers hold at least n uncommitted segments (workers cut them
                 // asynchronously); an observation of the hook state, not a verdict
                 let n = op["n"].as_u64().unwrap_or(1) as usize;
+                let want_docs = op["docs"].as_u64().unwrap_or(0);
+                let docs = || UNCOMMITTED_DOCS.load(std::sync::atomic::Ordering::SeqCst);
                 let t0 = std::time::Instant::now();
-                while self.regs.lock().unwrap().0.len() < n && t0.elapsed() < std::time::Duration::from_secs(3) {
+                while (self.regs.lock().unwrap().0.len() < n || docs() < want_docs) && t0.elapsed() < std::time::Duration::from_secs(3) {
                     std::thread::sleep(std::time::Duration::from_millis(2));
                 }
                 let have = self.regs.lock().unwrap().0.len();
-                json!({"ev":"wait_uncommitted","ok":have >= n,"n":have})
+                json!({"ev":"wait_uncommitted","ok":have >= n && docs() >= want_docs,"n":have,"docs":docs()})
             }
             "merge_uncommitted" => {
                 // IndexWriter::merge on the segments currently in the uncommitted register
@@ -544,7 +546,12 @@ pub fn track_registers(regs: &Arc<Mutex<(Vec<String>, Vec<String>)>>, v: &Value)
     let mut g = regs.lock().unwrap();
     g.0 = get("uncommitted");
     g.1 = get("committed");
+    let docs: u64 = v["uncommitted"].as_array().map(|a| a.iter().map(|e| e["max_doc"].as_u64().unwrap_or(0)).sum()).unwrap_or(0);
+    UNCOMMITTED_DOCS.store(docs, std::sync::atomic::Ordering::SeqCst);
 }
+
+/// documents (max_doc) in the segments of the uncommitted register, as the last `registers` hook event showed it
+pub static UNCOMMITTED_DOCS: std::sync::atomic::AtomicU64 = std::sync::atomic::AtomicU64::new(0);
 
 /// Install a sink that both tracks the registers (raw uuids) and logs canonicalised events.
 /// merges started and not yet ended (hook events `merge_start` / `registers` after end_merge);
@@ -562,6 +569,7 @@ pub fn settle_merges(max_ms: u64) {
 pub fn install_sink(tracer: &Tracer, regs: Arc<Mutex<(Vec<String>, Vec<String>)>>, extra: Option<Arc<dyn Fn(&'static str, &Value) + Send + Sync>>) {
     let t = tracer.clone();
     MERGES_IN_FLIGHT.store(0, std::sync::atomic::Ordering::SeqCst);
+    UNCOMMITTED_DOCS.store(0, std::sync::atomic::Ordering::SeqCst);
     tantivy::verif::set_sink(Some(Arc::new(move |name, mut v| {
         if name == "registers" {
             track_registers(&regs, &v);
